@@ -4,9 +4,10 @@ import (
 	"strings"
 
 	"git.sr.ht/~rockorager/vaxis/zzverif"
+	"github.com/rivo/uniseg"
 )
 
-var verifTextSamples = []string{"", "a", "abc", "abcde", "ab\ncd", "a世b", "ab世cd", "世世世", "éa", "a\tb", "x\n\ny", "ab cd ef", "((世界", "世。。", "a(世"}
+var verifTextSamples = []string{"", "a", "abc", "abcde", "ab\ncd", "a世b", "ab世cd", "世世世", "éa", "a\tb", "x\n\ny", "ab cd ef", "((世界", "世。。", "a(世", "e\u0301a", "ae\u0301"}
 
 type verifPlaced struct {
 	g        string
@@ -16,8 +17,25 @@ type verifPlaced struct {
 // verifPlaceModel is the placement rule of the property: clusters left to right, advance by
 // display width, a new row at a line break or when the row is full, nothing beyond the last
 // row.
+// verifClusters splits text into grapheme clusters with their display widths, independently
+// of the library's Characters (uniseg's cluster iterator; a tab stands for 8 blanks as the
+// library documents).
+func verifClusters(text string) (out []Character) {
+	gr := uniseg.NewGraphemes(text)
+	for gr.Next() {
+		if gr.Str() == "\t" {
+			for i := 0; i < 8; i++ {
+				out = append(out, Character{" ", 1})
+			}
+			continue
+		}
+		out = append(out, Character{gr.Str(), gr.Width()})
+	}
+	return
+}
+
 func verifPlaceModel(text string, cols, rows int) (out []verifPlaced, col, row int) {
-	for _, ch := range Characters(text) {
+	for _, ch := range verifClusters(text) {
 		if ch.Grapheme == "\n" {
 			col, row = 0, row+1
 			continue
@@ -115,7 +133,7 @@ func VerifC11Print() {
 			// Println (documented for a single line of text): the longest prefix that fits,
 			// left to right
 			col, ok := 0, true
-			for _, ch := range Characters(text) {
+			for _, ch := range verifClusters(text) {
 				if ch.Grapheme == "\n" || col+ch.Width > cols {
 					break
 				}
@@ -131,7 +149,7 @@ func VerifC11Print() {
 		// reading order: the graphemes on the screen, row by row, are a subsequence of the
 		// text's non-break clusters in order
 		var src []string
-		for _, ch := range Characters(text) {
+		for _, ch := range verifClusters(text) {
 			if ch.Grapheme != "\n" {
 				src = append(src, ch.Grapheme)
 			}
